@@ -307,6 +307,7 @@ def check_property(pid, a, seed, timeout_ms, t0):
 
     # ------------------------------------------------------------ violations
     violations = []
+    unwitnessed = []
     os.makedirs(os.path.join(VERIF, "replays"), exist_ok=True)
     seen = set()
     for x in refuted:
@@ -314,7 +315,16 @@ def check_property(pid, a, seed, timeout_ms, t0):
         if key in seen:
             continue
         seen.add(key)
-        violations.append(report_refuted(pid, x, bounded, eng))
+        line = report_refuted(pid, x, bounded, eng)
+        internal = x.get("kind") in ("inv-init", "inv-step", "decr", "call-pre", "side")
+        if internal and line.endswith("no-failing-input-found"):
+            # an obligation about the proof's own annotations (loop invariant, variant, callee precondition) failed
+            # and neither the counter-model nor the battery yields a failing input of the real function: the proof no
+            # longer goes through (e.g. the loop was rewritten), which is UNDECIDED, not a violation of the property
+            unwitnessed.append("%s :: %s no longer discharged (counter-model does not reproduce on the real code; "
+                               "see %s)" % (x["function"], x["label"], line.split("replay=")[1].split()[0]))
+        else:
+            violations.append(line)
     known_lines = []
     for b in bounded:
         seen_clause = set()
@@ -406,7 +416,8 @@ def check_property(pid, a, seed, timeout_ms, t0):
                      if x.get("ms", 0) > timeout_ms / 3.0],
         "inlined": sorted(inlined),
         "lemma_obligations": len(lemma_results),
-        "undecided": undecided + ["%s :: %s (%s)" % (x["function"], x["label"], x.get("reason")) for x in unknown],
+        "undecided": undecided + unwitnessed +
+                     ["%s :: %s (%s)" % (x["function"], x["label"], x.get("reason")) for x in unknown],
         "refuted": ["%s :: %s" % (x["function"], x["label"]) for x in refuted],
         "bounded": bounded_ev,
         "bounded_driver": {k: v for k, v in (driver or {}).items() if k not in ("failures", "samples")},
@@ -443,8 +454,8 @@ def check_property(pid, a, seed, timeout_ms, t0):
     if nobl == 0 and not (driver and driver.get("evaluations")):
         print("CHECKER-ERROR: zero obligations generated for %s" % pid)
         return 3
-    if undecided or unknown:
-        for u in undecided:
+    if undecided or unknown or unwitnessed:
+        for u in undecided + unwitnessed:
             print("UNDECIDED: " + u)
         for x in unknown:
             print("UNDECIDED: %s :: %s solver unknown (%s)" % (x["function"], x["label"], x.get("reason")))
